@@ -21,26 +21,6 @@ func moveKey(m tak.Move) string {
 	return fmt.Sprintf("%d:%d:%d:0", m.X, m.Y, uint8(m.Type)) // Move.Equal ignores Slides of non-slides
 }
 
-// every composition of k into positive parts with at most maxLen parts, packed like tak.Slides
-func compositions(k, maxLen int) []tak.Slides {
-	var out []tak.Slides
-	var rec func(rem int, parts []int)
-	rec = func(rem int, parts []int) {
-		if rem == 0 {
-			out = append(out, tak.MkSlides(parts...))
-			return
-		}
-		if len(parts) == maxLen {
-			return
-		}
-		for d := 1; d <= rem; d++ {
-			rec(rem-d, append(append([]int(nil), parts...), d))
-		}
-	}
-	rec(k, nil)
-	return out
-}
-
 // naiveLegal: the legal move set by the rules oracle: all placements x squares, all slide shapes
 // (carry 1..size, every composition, every direction) x squares, filtered by rulesMove.
 func naiveLegal(a *aboard) map[string]bool {
